@@ -15,6 +15,7 @@ import (
 	"sort"
 	"strings"
 	"sync"
+	"sync/atomic"
 	"time"
 )
 
@@ -416,12 +417,19 @@ func RunProperty(root, prop, tier string, seed int64, exePlain, exeRace string) 
 	return 0
 }
 
+var raceSeq atomic.Int64
+
 func round2(f float64) float64 { return float64(int(f*100)) / 100 }
 
 func runJobProcess(exe string, j *Job) *Result {
 	jb, _ := json.Marshal(j)
 	cmd := exec.Command(exe, "-job", string(jb))
 	cmd.Env = append(os.Environ(), "GOMAXPROCS=2", "GOTRACEBACK=single")
+	if j.Race {
+		dir := filepath.Join(filepath.Dir(exe), "race")
+		os.MkdirAll(dir, 0o755)
+		cmd.Env = append(cmd.Env, fmt.Sprintf("GORACE=log_path=%s/r%d-%d halt_on_error=0", dir, os.Getpid(), raceSeq.Add(1)))
+	}
 	var stderr bytes.Buffer
 	cmd.Stderr = &stderr
 	out, err := cmd.StdoutPipe()
